@@ -74,7 +74,11 @@ AllItems == {
   TDer("tA1", "A1", << <<"A", 1>> >>, "a1"),                \* same dimension as base type A
   TDer("tMpA_dup", "MpA2", << <<"M", 1>>, <<"A", -1>> >>, "mpx"),  \* dimension of MpA again, explicit symbol, no ref unit derivable
   TDer("tApB2", "ApB2", << <<"A", 1>>, <<"B", -2>> >>, "apb2"),
+  TDer("tA2_symdup", "A2s", << <<"A", 2>> >>, "a"),                 \* free dimension, reference symbol already taken
+  TDer("tAB_symdup", "ABs", << <<"A", 1>>, <<"B", 1>> >>, "b"),
   UScaled("ka", "A", "ka", <<10, 1>>, "a"),
+  UScaled("xa5", "A", "xa5", <<5, 1>>, "a"),                 \* same scale as ha (= 1/2 ka): equal, yet another unit
+  UScaled("ppa10", "MpA", "ppa10", <<10, 1>>, "ppka"),       \* 10 p/ka = 1 p/a: worth what ppa is worth, in a type without reference unit
   UScaled("ha", "A", "ha", <<1, 2>>, "ka"),
   UScaled("ta", "A", "ta", <<1, 3>>, "a"),
   UScaled("cb", "B", "cb", <<1, 100>>, "b"),
@@ -89,6 +93,7 @@ AllItems == {
   UPlain("p_dup", "M", "p"),
   UTerm("kab", "AB", "kab", << <<"ka", 1>>, <<"b", 1>> >>),
   UTerm("bad_dim", "AB", "bad", << <<"ka", 1>>, <<"ka", 1>> >>),      \* denotes A^2, not A*B
+  UTerm("bad_cancel", "A", "bc", << <<"ka", 1>>, <<"a", -1>> >>),     \* the units cancel: a number, not an A unit
   UTerm("sq", "A2", "sq", << <<"ha", 1>>, <<"ka", 1>> >>),
   UTerm("ppka", "MpA", "ppka", << <<"p", 1>>, <<"ka", -1>> >>),
   UTerm("kbc", "A", "kbc", << <<"ka", 1>>, <<"b", 1>>, <<"cb", -1>> >>),   \* two convertible units, the later one with exponent -1
@@ -300,6 +305,9 @@ DoOp(i) ==
                 /\ cache' = IF i.act # "pow" /\ fresh.st \in {"ok", "num"}
                             THEN cache \cup {[key |-> k, r |-> fresh]} ELSE cache
     /\ UNCHANGED <<types, units>>
+
+\* C04 / C19 on units: equal <=> same type and (with a reference unit) same scale / (without) the same unit
+UnitEq(u, v) == u.typ = v.typ /\ IF TypeByName(u.typ).ref # NoName THEN u.num = v.num ELSE u.sym = v.sym
 
 \* the guards under which an item can be attempted at all (its operands exist)
 CanTry(i) ==
